@@ -19,6 +19,12 @@ REPO = "/repo"
 
 # property -> list of (name, file relative to /repo, old, new)
 MUTANTS = {
+    "C14": [
+        ("copy-range-off-by-one", "src/phreeqcpp/mainsubs.cpp", "for (size_t i = copy_pp_assemblage.start[j]; i <= copy_pp_assemblage.end[j]; i++)", "for (size_t i = copy_pp_assemblage.start[j]; i < copy_pp_assemblage.end[j]; i++)"),
+        ("save-range-first-only", "src/phreeqcpp/mainsubs.cpp", "for (i = save.n_exchange_user + 1; i <= save.n_exchange_user_end; i++)", "for (i = save.n_exchange_user + 1; i < save.n_exchange_user_end; i++)"),
+        ("components-skip-exchange", "src/phreeqcpp/Phreeqc.cpp", "\t\t\tcxxExchange entity = cit->second;\n\t\t\tentity.totalize();\n\t\t\taccumulator.add_extensive(entity.Get_totals(), 1.0);", "\t\t\tcxxExchange entity = cit->second;\n\t\t\tentity.totalize();"),
+        ("delete-solution-keeps-last", "src/phreeqcpp/ReadClass.cxx", "\t\t\tfor (it = delete_info.Get_solution().Get_numbers().begin(); it != delete_info.Get_solution().Get_numbers().end(); it++)\n\t\t\t{\n\t\t\t\tRxn_solution_map.erase(*it);", "\t\t\tfor (it = delete_info.Get_solution().Get_numbers().begin(); it != delete_info.Get_solution().Get_numbers().end(); it++)\n\t\t\t{\n\t\t\t\tif (*it != 8) Rxn_solution_map.erase(*it);"),
+    ],
     "C13": [
         ("f-index-shift", "src/IPhreeqc_interface_F.cpp", "padfstring(comp, ::GetComponent(*id, (*n) - 1), line_length);", "padfstring(comp, ::GetComponent(*id, (*n)), line_length);"),
         ("id-reuse", "src/IPhreeqc.cpp", "this->Index = IPhreeqc::InstancesIndex++;", "this->Index = IPhreeqc::Instances.size(); IPhreeqc::InstancesIndex++;"),
